@@ -51,3 +51,40 @@ Theorem C10_used : forall cfg st r now s,
               (wl_trace (send_request cfg st r (-1) now s)).
 Proof. exact send_request_waits. Qed.
 Print Assumptions C10_used.
+
+(* ---- the code is the model (regenerated each run): the real Client.send_request executed on a symbolic clock (tools/symtrans.py,
+   Gen/Fn_SendRequest.v) - after server timings were adopted ---- *)
+From UDS Require Import Gen.Fn_SendRequest Model.Services Proofs.Tie_send_common Proofs.Tie_send_server.
+
+Theorem C10_code_send_request_server_silence : forall cfg T S2 S2S P2 P2S now, timing cfg (Some T) P2 P2S ->
+  fn_send_request_server_silence T S2 S2S P2 P2S now = ret (obs_sr (send_request cfg (set_timing st_init S2 S2S) tp_req (-1) now [])).
+Proof. exact tie_send_request_server_silence. Qed.
+Print Assumptions C10_code_send_request_server_silence.
+Theorem C10_code_send_request_server_no_overall_silence : forall cfg S2 S2S P2 P2S now, timing cfg None P2 P2S ->
+  fn_send_request_server_no_overall_silence S2 S2S P2 P2S now = ret (obs_sr (send_request cfg (set_timing st_init S2 S2S) tp_req (-1) now [])).
+Proof. exact tie_send_request_server_no_overall_silence. Qed.
+Print Assumptions C10_code_send_request_server_no_overall_silence.
+Theorem C10_code_send_request_server_P : forall cfg T S2 S2S P2 P2S now a1, timing cfg (Some T) P2 P2S -> now < a1 ->
+  fn_send_request_server_P T S2 S2S P2 P2S now a1 = ret (obs_sr (send_request cfg (set_timing st_init S2 S2S) tp_req (-1) now [(a1, Frame [126; 0])])).
+Proof. exact tie_send_request_server_P. Qed.
+Print Assumptions C10_code_send_request_server_P.
+Theorem C10_code_send_request_server_no_overall_P : forall cfg S2 S2S P2 P2S now a1, timing cfg None P2 P2S -> now < a1 ->
+  fn_send_request_server_no_overall_P S2 S2S P2 P2S now a1 = ret (obs_sr (send_request cfg (set_timing st_init S2 S2S) tp_req (-1) now [(a1, Frame [126; 0])])).
+Proof. exact tie_send_request_server_no_overall_P. Qed.
+Print Assumptions C10_code_send_request_server_no_overall_P.
+Theorem C10_code_send_request_server_WP : forall cfg T S2 S2S P2 P2S now a1 a2, timing cfg (Some T) P2 P2S -> now < a1 ->
+  fn_send_request_server_WP T S2 S2S P2 P2S now a1 a2 = ret (obs_sr (send_request cfg (set_timing st_init S2 S2S) tp_req (-1) now [(a1, Frame [127; 62; 120]); (a2, Frame [126; 0])])).
+Proof. exact tie_send_request_server_WP. Qed.
+Print Assumptions C10_code_send_request_server_WP.
+Theorem C10_code_send_request_server_no_overall_WP : forall cfg S2 S2S P2 P2S now a1 a2, timing cfg None P2 P2S -> now < a1 ->
+  fn_send_request_server_no_overall_WP S2 S2S P2 P2S now a1 a2 = ret (obs_sr (send_request cfg (set_timing st_init S2 S2S) tp_req (-1) now [(a1, Frame [127; 62; 120]); (a2, Frame [126; 0])])).
+Proof. exact tie_send_request_server_no_overall_WP. Qed.
+Print Assumptions C10_code_send_request_server_no_overall_WP.
+Theorem C10_code_send_request_server_W : forall cfg T S2 S2S P2 P2S now a1, timing cfg (Some T) P2 P2S -> now < a1 ->
+  fn_send_request_server_W T S2 S2S P2 P2S now a1 = ret (obs_sr (send_request cfg (set_timing st_init S2 S2S) tp_req (-1) now [(a1, Frame [127; 62; 120])])).
+Proof. exact tie_send_request_server_W. Qed.
+Print Assumptions C10_code_send_request_server_W.
+Theorem C10_code_send_request_server_no_overall_W : forall cfg S2 S2S P2 P2S now a1, timing cfg None P2 P2S -> now < a1 ->
+  fn_send_request_server_no_overall_W S2 S2S P2 P2S now a1 = ret (obs_sr (send_request cfg (set_timing st_init S2 S2S) tp_req (-1) now [(a1, Frame [127; 62; 120])])).
+Proof. exact tie_send_request_server_no_overall_W. Qed.
+Print Assumptions C10_code_send_request_server_no_overall_W.
